@@ -16,7 +16,8 @@
    What the real code rejects / what is outside the model is said where it matters:
      - the request side never blocks (tiny messages, transport never paused): the send phase is atomic;
      - DATA events carry complete gRPC messages (C01 covers fragmentation and truncation);
-     - no listener is registered, no deadline is set, nobody calls cancel();
+     - listeners on RecvInitialMetadata / RecvMessage / RecvTrailingMetadata are suspension points only (they
+       do not edit metadata, interrupt or raise); no deadline is set, nobody calls cancel();
      - hyper-h2 is abstracted to: first HEADERS = response headers, a later HEADERS = trailers (always
        END_STREAM), END_STREAM closes the stream (the client has already ended its side), RST_STREAM on
        a closed stream is ignored, GOAWAY and connection loss terminate every registered stream and
